@@ -411,6 +411,8 @@ def oracle(entries, out, meas_all, with_fmt_rule=True):
     """C19's statement on the real printed text `out` of `entries`.  Returns (failures, facts list)."""
     fails = []
     facts_all = []
+    if not entries and out == "":
+        return fails, facts_all
     if not out.endswith("\n"):
         return ["output does not end with a line break"], facts_all
     lines = out[:-1].split("\n")
@@ -717,6 +719,55 @@ def tree_random_cases(chk, W, count):
     return cases
 
 
+LIGATURES = ["👨\u200d👩\u200d👧", "🇯🇵", "☺\ufe0f", "e\u0301", "ｶﾞ", "=\u0338", "<\u0338", "👍🏽", "لا", "\u1100\u1161", "A\u0338",
+             "☺\ufe0e", "≠", "🈂\ufe0e", "\u17d2\u1780"]
+
+
+def ligature_cases(chk, count):
+    """accounts / commodities holding sequences whose width is not the sum of their characters' widths (emoji ZWJ, flags,
+    variation selectors, combining marks, `=` + U+0338 ...): outside the model's width table; the property's statement is
+    evaluated on the real output (measured at string level), the model is only compared for information."""
+    rng = chk.rng
+    sw = dict(zip(LIGATURES, (int(x.split(":")[0]) for x in run_hx(["c19", "swidth"], [" ".join(enc(q) for q in LIGATURES)])[0].split())))
+    names = []
+    for _ in range(count * 6):
+        target = rng.randint(1, 70)
+        parts = []
+        total = 0
+        while total < target:
+            if rng.random() < 0.45:
+                q = rng.choice(LIGATURES)
+                if total + sw[q] + 1 <= target and sw[q] > 0:
+                    parts.append(q + rng.choice(ASCII_ACCT[:52]))
+                    total += sw[q] + 1
+                    continue
+            parts.append(rng.choice(ASCII_ACCT[:52]))
+            total += 1
+        names.append(("".join(parts), target))
+    real = [int(x.split(":")[0]) for out in run_hx(["c19", "swidth"], [" ".join(enc(n) for n, _ in names[i:i + 50]) for i in range(0, len(names), 50)])
+            for x in out.split()]
+    names = [n for (n, t), r in zip(names, real) if r == t]
+    cases = []
+    for i in range(0, len(names) - 5, 6):
+        posts = []
+        for acct in names[i:i + 6]:
+            com = rng.choice(COMMS + ["☺\ufe0f", "e\u0301"])
+            v = simple_amount(rng, rng.randint(1, 30), com)
+            k = rng.random()
+            clear = rng.choice("ucp")
+            if k < 0.4:
+                posts.append(post_t(acct, clear, pa_t(v)))
+            elif k < 0.7:
+                posts.append(post_t(acct, clear, pa_t(simple_amount(rng, rng.randint(1, 3), com)), v))
+                posts.append(post_t(acct, clear, None, v))
+            else:
+                posts.append(post_t(acct, clear, None, v))
+        cases.append({"precs": {}, "entries": [txn_t(date_t(2024, 5, 6), posts, payee="ligatures")], "tag": "ligature:tree"})
+        if len(cases) >= count:
+            break
+    return cases
+
+
 def comment_is_printable(e):
     """entries for which the blank-line rule applies as stated: a top-level comment prints at least one line."""
     if e[0] == "comment":
@@ -728,8 +779,11 @@ def run(chk):
     chk.rule = ("grid: every account display width 1..70 x every numeric width 1..30 x {plain, lot, cost, assertion, balance-only(+companion)} "
                 "x account flavour {ASCII, wide CJK, mixed incl. East-Asian-ambiguous} x clear mark {none,*,!} (quick tier: ASCII/no-mark "
                 "complete, two other combinations per cell), 25% parenthesised expressions, 30% with declared precisions; plus ledger "
-                "texts through the real parser and FormatOptions::format, plus random trees of all entry kinds; a case is one printed "
-                "transaction/ledger; non-trivial = it contains a posting with an amount or a balance; distinct = distinct (precisions, tree)")
+                "texts (corpus first; 12% with a malformed entry) through the real parser and FormatOptions::format, plus random trees of all "
+                "entry kinds, plus an oracle-only stream of accounts/commodities holding emoji ZWJ / flag / variation-selector / combining "
+                "sequences (outside the model's width table); every code point of the model's width table is compared with unicode-width; "
+                "a case is one printed transaction/ledger; non-trivial = it contains a posting with an amount or a balance; "
+                "distinct = distinct (stream, precisions, tree or text)")
     chk.assumptions = [
         "unicode-width: per-character table validated against the real library over the whole table domain on every run; additivity over "
         "characters assumed (generators avoid ligature-like sequences; every printed line is measured at string level by the real library)",
@@ -776,26 +830,49 @@ def run(chk):
                           {"stream": "c19 width", "char": ch}, no_failing_input=True, tag="corr")
 
     # --- streams 2-4: printed text -------------------------------------------------------------------------------------
-    cases = grid_cases(chk, W)
-    n_text = 300 if chk.tier == "quick" else 6000
-    n_tree = 400 if chk.tier == "quick" else 8000
-    tcases = text_cases(chk, W, n_text)
-    rcases = tree_random_cases(chk, W, n_tree)
+    if getattr(chk, "replay", None):
+        # bin/check C19 --replay FILE: only the recorded case, through the same pipeline
+        rp = json.load(open(chk.replay))
+        line = rp["case"]
+        mode = rp.get("mode") or ("text" if "text" in str(rp.get("stream", "")) else "tree")
+        c = {"line": line, "tag": "replay:" + mode}
+        if mode == "tree":
+            top = sx_parse(line)
+            c["precs"] = dict((dec(x[0]), int(x[1])) for x in top[0][1:])
+            c["entries"] = top[1]
+            cases, rcases, tcases = [c], [], []
+            lcases = []
+        else:
+            top = sx_parse(line.rsplit(" ", 1)[0])
+            c["precs"] = dict((dec(x[0]), int(x[1])) for x in top[0][1:])
+            c["text"] = dec(line.rsplit(" ", 1)[1])
+            cases, rcases, tcases = [], [], [c]
+        lcases = []
+        W.load("".join(ch for ch in dec(line.replace("(", " ").replace(")", " ")) if ch not in "\n\r\t"))
+    else:
+        cases = grid_cases(chk, W)
+        n_text = 300 if chk.tier == "quick" else 6000
+        n_tree = 400 if chk.tier == "quick" else 8000
+        tcases = text_cases(chk, W, n_text)
+        rcases = tree_random_cases(chk, W, n_tree)
+        lcases = ligature_cases(chk, 150 if chk.tier == "quick" else 3000)
+    rcases = rcases + lcases
 
     tree_lines = []
     for c in cases + rcases:
-        c["line"] = "%s %s" % (precs_sx(c["precs"]), sx_str(c["entries"]))
+        c.setdefault("line", "%s %s" % (precs_sx(c["precs"]), sx_str(c["entries"])))
         tree_lines.append(c["line"])
     text_lines = []
     for c in tcases:
-        c["line"] = "%s %s" % (precs_sx(c["precs"]), enc(c["text"]))
+        c.setdefault("line", "%s %s" % (precs_sx(c["precs"]), enc(c["text"])))
         text_lines.append(c["line"])
     impl_tree = run_sharded(HX, ["c19", "tree"], tree_lines)
     impl_text = run_sharded(HX, ["c19", "text"], text_lines)
     # the model prints the tree the real code worked on (for texts: the tree the real parser returned)
     drv_lines = []
     recs = []
-    for c, rec, mode in [(c, r, "tree") for c, r in zip(cases + rcases, impl_tree)] + [(c, r, "text") for c, r in zip(tcases, impl_text)]:
+    # corpus (the first ledger texts) first, then the generated cases
+    for c, rec, mode in [(c, r, "text") for c, r in zip(tcases, impl_text)] + [(c, r, "tree") for c, r in zip(cases + rcases, impl_tree)]:
         p = parse_record(rec)
         c["mode"] = mode
         recs.append((c, p))
@@ -805,7 +882,8 @@ def run(chk):
             drv_lines.append("%s %s" % (precs_sx(c["precs"]), p["tree_text"]))
     model_out = run_sharded(DRV, ["c19", "print"], drv_lines)
     chk.streams["grid"] = len(cases)
-    chk.streams["random-trees"] = len(rcases)
+    chk.streams["random-trees"] = len(rcases) - len(lcases)
+    chk.streams["ligature-sequences (oracle only)"] = len(lcases)
     chk.streams["ledger-texts"] = len(tcases)
 
     sampled = set()
@@ -815,7 +893,8 @@ def run(chk):
         if "error" in p:
             chk.case(c["line"])
             chk.oracle_failures += 1
-            chk.violation("the printer did not print: %s" % p["error"][:200], {"case": c["line"], "observed": p["error"], "rerun": rerun})
+            chk.violation("the printer did not print: %s" % p["error"][:200],
+                          {"case": c["line"], "mode": c["mode"], "observed": p["error"], "rerun": rerun})
             continue
         entries = p["tree"]
         if p["status"] == "parse-error":
@@ -858,15 +937,17 @@ def run(chk):
         if fails:
             chk.oracle_failures += 1
             chk.violation("formatted output breaks C19: " + fails[0],
-                          {"case": c["line"], "stream": tag, "failures": fails[:10], "real_output": target, "model_output": dec(m[4:]) if m.startswith("out=") else m,
+                          {"case": c["line"], "mode": c["mode"], "stream": tag, "failures": fails[:10], "real_output": target, "model_output": dec(m[4:]) if m.startswith("out=") else m,
                            "rerun": rerun, "expected": "4-blank indent, >= 2 blanks after the account, numeric part ending at display column 52 for short "
                            "accounts, `=` of a balance-only posting where it falls after an amount, one empty line between entries"})
+        elif tag.startswith("ligature"):
+            chk.count("outside the width table: model %s" % ("agrees" if m == "out=" + enc(target) else "differs (not compared)"))
         elif m != "out=" + enc(target):
             chk.disagreements += 1
             mo = dec(m[4:]) if m.startswith("out=") else m
             first = next((i for i, (x, y) in enumerate(zip(mo.split("\n"), target.split("\n"))) if x != y), None)
             chk.violation("printer model and implementation print different text (the property oracle holds on this input)",
-                          {"stream": "c19 " + tag, "case": c["line"], "impl": target, "model": mo,
+                          {"stream": "c19 " + tag, "mode": c["mode"], "case": c["line"], "impl": target, "model": mo,
                            "first_differing_line": None if first is None else {"impl": target.split("\n")[first], "model": mo.split("\n")[first]},
                            "rerun": rerun}, no_failing_input=True, tag="corr")
         key = tag.split(":")[0] + (":" + tag.split(":")[1] if tag.startswith("grid") else "")
